@@ -177,6 +177,64 @@ def corpus_check(prop, root="/repo") -> dict:
     return out
 
 
+def _benign_one(args):
+    import shutil
+    import subprocess
+    import tempfile
+
+    from .runner import analyse
+
+    prop, root, d, name, base = args
+    tmp = tempfile.mkdtemp(prefix="jtsa_benign_")
+    try:
+        shutil.copytree(os.path.join(root, "jaxtyping"), os.path.join(tmp, "jaxtyping"), ignore=shutil.ignore_patterns("__pycache__"))
+        if os.path.isdir(os.path.join(root, "docs")):
+            shutil.copytree(os.path.join(root, "docs"), os.path.join(tmp, "docs"))
+        r = subprocess.run(["git", "apply", "--unsafe-paths", "--directory", tmp, d], cwd=tmp, capture_output=True, text=True)
+        if r.returncode != 0:
+            return (name, "skipped", "")
+        try:
+            ctx = analyse(prop, tmp, thorough=False)
+            new = [f for f in ctx.findings if f.key not in base]
+            if new:
+                return (name, "false_alarm", f"{new[0].rule} {new[0].message[:100]}")
+            return (name, "silent", "")
+        except AnalysisError as e:
+            return (name, "no_verdict", str(e)[:100])
+    finally:
+        shutil.rmtree(tmp, ignore_errors=True)
+
+
+def benign_check(prop, root="/repo") -> dict:
+    """Behaviour-preserving refactorings written by independent sub-agents (benign/<R>/<k>.diff):
+    applied to a throw-away copy of the current sources, the property's rules must not report a
+    violation (an ANALYSIS-ERROR -- no verdict -- is tolerated and counted)."""
+    import glob
+
+    here = os.path.dirname(os.path.dirname(os.path.abspath(__file__)))
+    out = {"applied": 0, "silent": 0, "no_verdict": [], "false_alarms": [], "skipped": []}
+    base, _ = _baseline_keys(prop, root)
+    tasks = []
+    for d in sorted(glob.glob(os.path.join(here, "benign", "*", "*.diff"))):
+        tasks.append((prop, root, d, os.path.relpath(d, os.path.join(here, "benign")), base))
+    if not tasks:
+        return out
+    with ProcessPoolExecutor(max_workers=min(16, os.cpu_count() or 4)) as ex:
+        res = list(ex.map(_benign_one, tasks))
+    for name, status, msg in res:
+        if status == "skipped":
+            out["skipped"].append(name)
+            continue
+        out["applied"] += 1
+        if status == "silent":
+            out["silent"] += 1
+        elif status == "no_verdict":
+            out["no_verdict"].append(f"{name}: {msg}")
+        else:
+            out["false_alarms"].append(f"{name}: {msg}")
+    return out
+
+
 def main(argv, root="/repo") -> int:
     props = argv or [None]
     rc = 0
